@@ -234,3 +234,22 @@ package account
 //@   props C07
 //@   requires a != nil && a.rawAccount != nil && a.processor != nil
 //@   assert @call PushChangeLog#0: gh("rawWrites", ref(a.rawAccount)) == old(gh("rawWrites", ref(a.rawAccount)))
+
+// ---------------------------------------------------------------------------------------------------------------------
+// C10: the store ranks the candidates of a block from the vote logs AND from the block's account trie (the candidates that
+// unregistered in this block are found there).  So every account of the block reaches the trie before the ranking is asked for:
+// no Put after a ranking (typestate over the ghost counter gh("ranked", db) of store/protocol).
+//@ func (*Manager).logGrouping   trusted
+//@   modifies nothing
+//@   ensures result != nil
+//@ func (*LogProcessor).filterLogsByType   trusted
+//@   modifies nothing
+//@ func (*Account).Save   trusted
+//@   modifies allbut("ranked", Manager)
+//@ func (*Manager).Save
+//@   props C10
+//@   requires am != nil && am.db != nil && am.processor != nil
+//@   requires forallKeys(a, am.accountCache, am.accountCache[a] != nil && am.accountCache[a].rawAccount != nil)
+//@   opt stop-at=Commit#0
+//@   assert @call Put#0: gh("ranked", am.db) == old(gh("ranked", am.db))
+//@   invariant @loop 0: gh("ranked", am.db) == old(gh("ranked", am.db))
